@@ -667,6 +667,83 @@ func ruleE3(c *Ctx) []Ob {
 			}
 		}
 	}
+	// (2b) the journals are only ever appended to (at the write sites) or emptied (commit): truncating them anywhere else
+	// makes a later rollback forget entries of the same build
+	for _, fn := range c.ModuleFuncs(pkgReflect) {
+		for _, b := range fn.Blocks {
+			for _, ins := range b.Instrs {
+				st, ok := ins.(*ssa.Store)
+				if !ok {
+					continue
+				}
+				g, ok := st.Addr.(*ssa.Global)
+				if !ok || globalKey(g) != "reflect.prefetchPendingKeys" && globalKey(g) != "reflect.prefetchPendingTypes" {
+					continue
+				}
+				good := false
+				if call, ok := st.Val.(*ssa.Call); ok && isBuiltin(call, "append") && path(call.Call.Args[0]) == globalKey(g) {
+					good = true
+				}
+				if fn == commit {
+					good = true
+				}
+				if isInitFn(fn) {
+					good = true
+				}
+				s.check(good, shortFn(fn)+":journal-store", c.InstrPos(st), "journal is appended to / emptied by commit", "the build journal "+globalKey(g)+" is overwritten or truncated outside commitPrefetch: entries of the running build are forgotten and a rollback leaves their descriptors in the caches")
+			}
+		}
+	}
+	// (2c) the prefetch walk reaches every nested struct: map keys and values, list/set elements, struct fields
+	if fs := sp.Func("fetchStructDesc"); fs != nil {
+		t := fs.Params[0].Name()
+		rec := map[string]bool{}
+		for _, b := range fs.Blocks {
+			for _, ins := range b.Instrs {
+				if call, ok := ins.(*ssa.Call); ok && call.Call.StaticCallee() == fs {
+					rec[path(call.Call.Args[0])] = true
+				}
+			}
+		}
+		s.check(rec[t+".K"] && rec[t+".V"], "fetchStructDesc:recursion", c.Pos(fs.Pos()), "descends into map keys, map values and list/set elements", fmt.Sprintf("fetchStructDesc recurses into %v only: a struct that occurs only as a map key (or element) keeps a nil descriptor and the first use crashes", keysOf(rec)))
+	}
+	if ps := sp.Func("prefetchSubStructDesc"); ps != nil {
+		k, _ := c.kinds()
+		have := map[string]bool{}
+		for _, b := range ps.Blocks {
+			for _, ins := range b.Instrs {
+				if call, ok := ins.(*ssa.Call); ok && call.Call.StaticCallee() != nil && call.Call.StaticCallee().Name() == "fetchStructDesc" {
+					if cs, _ := caseSet(b, ".T"); cs != nil {
+						for _, v := range cs {
+							have[k.nameOf(v)] = true
+						}
+					} else {
+						// guard by a table of kinds (containerTypes) or no guard at all: every field is visited
+						have["STRUCT"], have["MAP"], have["LIST"], have["SET"] = true, true, true, true
+						for _, cd := range domConds(b) {
+							if _, ok := cd.V.(*ssa.BinOp); ok && !isLoopHeader(cd.If.Block()) {
+								// an extra comparison restricts the kinds: evaluate conservatively
+								have = map[string]bool{}
+								for _, cd2 := range domConds(b) {
+									if l, op, r, ok := relOf(cd2.V, cd2.Truth, descInt); ok && op == "==" {
+										for _, kn := range []string{"STRUCT", "MAP", "LIST", "SET"} {
+											if l == fmt.Sprint(k.byName[kn]) || r == fmt.Sprint(k.byName[kn]) {
+												have[kn] = true
+											}
+										}
+									}
+									if u, ok := cd2.V.(*ssa.UnOp); ok && strings.Contains(path(u), "containerTypes[") && cd2.Truth {
+										have["MAP"], have["LIST"], have["SET"] = true, true, true
+									}
+								}
+							}
+						}
+					}
+				}
+			}
+		}
+		s.check(have["STRUCT"] && have["MAP"] && have["LIST"] && have["SET"], "prefetchSubStructDesc:kinds", c.Pos(ps.Pos()), "struct, map, list and set fields are prefetched", fmt.Sprintf("prefetch visits only kinds %v", keysOf(have)))
+	}
 	// (3) rollback / commit bodies
 	delKeys, nilSd := false, false
 	for _, b := range rollback.Blocks {
